@@ -76,6 +76,10 @@ def gen_cases(rng, tier):
                 else:
                     v = "valid"
             elif v == "tied":
+                if rule == "STV" and rng.random() < 0.5:
+                    c["cfg"]["transfer"] = "random"        # the tie must be refused under every transfer rule
+                    for b in bs:
+                        b["w"] = str(max(1, int(Fraction(b["w"]))))
                 r0 = bs[pos]["r"]
                 if len(r0) >= 2:
                     j = rng.randrange(len(r0) - 1)          # a tie in ANY position, not only the first
